@@ -157,6 +157,8 @@ func (w *World) verifyFunc(fi *FuncInfo, fc *FuncContract) (ex *Exec, err error)
 	ex = &Exec{w: w, fi: fi, fc: fc, info: fi.Pkg.TypesInfo, arith: "exact", assumedCalls: map[string]bool{}, heapTouched: map[string]*Term{}, heapMayWrite: map[string]*Term{}}
 	if fc.Arith != "" {
 		ex.arith = fc.Arith
+	} else if i := strings.Index(fc.Key, "@"); i >= 0 {
+		ex.arith = fc.Key[i+1:]
 	}
 	ex.unfold = fc.Unfold
 	defer func() {
@@ -456,9 +458,12 @@ func (ex *Exec) evalCall(st *State, e *ast.CallExpr) *Val {
 			return ex.evalBuiltin(st, id.Name, e)
 		}
 	}
-	// package functions from std
+	// functions and methods of dependencies / the standard library
 	if sel, ok := e.Fun.(*ast.SelectorExpr); ok {
 		if obj, ok := ex.info.ObjectOf(sel.Sel).(*types.Func); ok && obj.Pkg() != nil && !strings.HasPrefix(obj.Pkg().Path(), modPath) {
+			if v := ex.callExtern(st, obj, sel, e); v != nil {
+				return v
+			}
 			return ex.evalExternal(st, obj, sel, e)
 		}
 	}
@@ -496,6 +501,10 @@ func (ex *Exec) evalCall(st *State, e *ast.CallExpr) *Val {
 		panic(unsupported("callee not found: " + callee.FullName()))
 	}
 	cfc := ex.w.CS.Funcs[cfi.Key]
+	// a contract variant for the caller's arithmetic mode takes precedence ("Key@order")
+	if v := ex.w.CS.Funcs[cfi.Key+"@"+ex.arith]; v != nil {
+		cfc = v
+	}
 	if cfc == nil {
 		panic(unsupported("callee has no contract: " + cfi.Key + " (called at " + where + ")"))
 	}
@@ -610,7 +619,27 @@ func (ex *Exec) evalBuiltin(st *State, name string, e *ast.CallExpr) *Val {
 	case "append":
 		base := ex.eval(st, e.Args[0])
 		if e.Ellipsis.IsValid() {
-			panic(unsupported("append with ... at " + where))
+			// append(dst, src...): src is a slice or a string
+			src := ex.eval(st, e.Args[1])
+			arr := tField(base.T, "arr")
+			off := tField(base.T, "off")
+			ln := tField(base.T, "len")
+			narr := ex.fresh("app", arr.S)
+			bvCounter++
+			k := cnst(fmt.Sprintf("k$%d", bvCounter), SInt)
+			ex.assume(st, &Term{Op: "forall", BVars: []*Term{k}, S: SBool, Args: []*Term{tImp(tAnd(mk("<=", SBool, intLit(0), k), mk("<", SBool, k, ln)), tEq(tSelect(narr, k), tSelect(arr, mk("+", SInt, off, k))))}})
+			var n *Term
+			bvCounter++
+			j := cnst(fmt.Sprintf("j$%d", bvCounter), SInt)
+			if src.T.S.IsSlice {
+				n = tField(src.T, "len")
+				ex.assume(st, &Term{Op: "forall", BVars: []*Term{j}, S: SBool, Args: []*Term{tImp(tAnd(mk("<=", SBool, intLit(0), j), mk("<", SBool, j, n)), tEq(tSelect(narr, mk("+", SInt, ln, j)), tSelect(tField(src.T, "arr"), mk("+", SInt, tField(src.T, "off"), j))))}})
+			} else {
+				n = mk("strlen", SInt, src.T)
+				ex.assume(st, mk("<=", SBool, intLit(0), n))
+				ex.assume(st, &Term{Op: "forall", BVars: []*Term{j}, S: SBool, Args: []*Term{tImp(tAnd(mk("<=", SBool, intLit(0), j), mk("<", SBool, j, n)), tEq(tSelect(narr, mk("+", SInt, ln, j)), mk("strAt", SInt, src.T, j)))}})
+			}
+			return tv(tMkDT(base.T.S, narr, intLit(0), mk("+", SInt, ln, n)), base.GoT)
 		}
 		arr := tField(base.T, "arr")
 		off := tField(base.T, "off")
@@ -677,6 +706,93 @@ func (ex *Exec) evalBuiltin(st *State, name string, e *ast.CallExpr) *Val {
 		return tv(tIte(mk(op, SBool, a.T, b.T), a.T, b.T), a.GoT)
 	}
 	panic(unsupported("builtin " + name + " at " + where))
+}
+
+// externKey names a dependency function in contracts: "gjson.Result.ForEach", "gjson.Valid", "strings.TrimSpace".
+func externKey(obj *types.Func) string {
+	sig := obj.Type().(*types.Signature)
+	if sig.Recv() != nil {
+		return obj.Pkg().Name() + "." + recvTypeName(sig.Recv().Type()) + "." + obj.Name()
+	}
+	return obj.Pkg().Name() + "." + obj.Name()
+}
+
+// callExtern: a call into a dependency. With an `extern` contract: the modular call rule (assumed contract).
+// Without one, for the pure packages listed: a deterministic uninterpreted function of receiver and arguments.
+func (ex *Exec) callExtern(st *State, obj *types.Func, sel *ast.SelectorExpr, e *ast.CallExpr) *Val {
+	key := externKey(obj)
+	where := ex.pos(e)
+	sig := obj.Type().(*types.Signature)
+	var recv *Val
+	if sig.Recv() != nil {
+		recv = ex.eval(st, sel.X)
+	}
+	if cfc := ex.w.CS.Funcs["ext."+key]; cfc != nil {
+		cfi := &FuncInfo{Key: "ext." + key, Pkg: ex.fi.Pkg, Obj: obj, Sig: sig, Recv: sig.Recv()}
+		var args []*Val
+		for i, a := range e.Args {
+			v := ex.eval(st, a)
+			if i < sig.Params().Len() {
+				v = ex.convertTo(st, v, sig.Params().At(i).Type())
+			}
+			args = append(args, v)
+		}
+		ex.assumedCalls[cfi.Key] = true
+		return ex.applyContract(st, cfi, cfc, recv, args, where)
+	}
+	switch obj.Pkg().Path() {
+	case "github.com/tidwall/gjson", "github.com/tidwall/pretty", "github.com/tidwall/sjson", "strings", "errors", "fmt", "strconv", "bytes":
+	default:
+		return nil
+	}
+	if obj.Pkg().Path() == "strconv" && strings.HasPrefix(obj.Name(), "Append") {
+		return nil
+	}
+	var ts []*Term
+	if recv != nil {
+		ts = append(ts, recv.T)
+	}
+	for _, a := range e.Args {
+		v := ex.eval(st, a)
+		if v.Fn != nil || v.FnObj != nil {
+			panic(unsupported("closure passed to " + key + " without an extern contract at " + where))
+		}
+		ts = append(ts, v.T)
+	}
+	ex.assumedCalls["ext."+key+" (uninterpreted pure function)"] = true
+	n := sig.Results().Len()
+	mkRes := func(i int) *Val {
+		rt := sig.Results().At(i).Type()
+		name := "ext_" + sanitize(key)
+		if n > 1 {
+			name += fmt.Sprintf("_%d", i)
+		}
+		var t *Term
+		if len(ts) == 0 {
+			t = cnst(name, ex.w.sortOf(rt))
+		} else {
+			t = mk(name, ex.w.sortOf(rt), ts...)
+		}
+		v := tv(t, rt)
+		if key == "fmt.Errorf" || key == "errors.New" {
+			ex.assume(st, tNot(tEq(t, intLit(0))))
+		}
+		if b, ok := rt.Underlying().(*types.Basic); ok && b.Info()&types.IsString != 0 {
+			ex.assume(st, mk("<=", SBool, intLit(0), mk("strlen", SInt, t)))
+		}
+		return v
+	}
+	if n == 0 {
+		return tv(intLit(0), nil)
+	}
+	if n == 1 {
+		return mkRes(0)
+	}
+	var rs []*Val
+	for i := 0; i < n; i++ {
+		rs = append(rs, mkRes(i))
+	}
+	return &Val{Tuple: rs, T: intLit(0), Mag: -1}
 }
 
 func (ex *Exec) evalExternal(st *State, obj *types.Func, sel *ast.SelectorExpr, e *ast.CallExpr) *Val {
